@@ -645,8 +645,8 @@ pub fn grids(tier: Tier) -> Vec<(Grid, usize, bool)> {
             (g(2, 2, &vec![0, 1, 5, 15, 16]), 8, false),
             (g(1, 4, &vec![0, 1, 7, 17, 18]), 8, true),
             (g(4, 1, &vec![0, 1, 3, 7, 11, 17]), 8, true),
-            (g(3, 2, &vec![0, 1, 3, 7, 8, 11]), 8, false),
-            (g(4, 2, &vec![0, 1, 7, 11]), 8, false),
+            (g(3, 2, &vec![0, 1, 7, 11]), 8, false),
+            (g(4, 2, &vec![0, 7, 11]), 8, false),
         ],
     }
 }
